@@ -229,7 +229,8 @@ def C04():
     from . import r_reg, r_reg_ops
     chk = Check("C04", "other",
                 "R-REG (framing of primitive operators): Dx<0..4>, X<0..3> and the identity applied through "
-                "transformSpline / operator* to splines of order 0..3 on every window of grids up to the size bound: "
+                "transformSpline / operator* to splines of order 0..3 on every window of grids up to the size bound "
+                "(plus constant propagation through faculty / facultyRatio / binomialCoefficient for arguments 0..9): "
                 "the result lives on the operand's support and coefficient p of interval I depends on exactly the "
                 "operand coefficients of the same interval that d^n/dx^n resp. x^n prescribes and (for x^n) on that "
                 "interval's two end points; exactly zero where n exceeds the degree. Falling-factorial and binomial "
@@ -243,6 +244,7 @@ def C04():
         chk.units.append(n)
         total += r_reg.run_jobs(chk, u, "R-REG.op", _ops_jobs("operator_suite", nmax,
                                                               cases=sorted(r_reg_ops.PRIMITIVE)))
+        total += r_reg.run_jobs(chk, u, "R-REG.const", [("bsv.r_reg_ops", "constant_table_suite", dict(nmax=9))])
     chk.note("regions_evaluated", total)
     chk.note("grid_size_bound", nmax)
     chk.exhaustive = True
@@ -271,6 +273,9 @@ def C05():
     chk.note("grid_size_bound", nmax)
     chk.exhaustive = True
     chk.floor("R-REG.op", chk.rules["R-REG.op"]["instances"], 35, "operator cases")
+    from . import r_small
+    nd = r_small.r_div(chk, _lib_units(["cases_off"]))
+    chk.floor("R-DIV", nd, 8, "functions using a scalar of type S")
     return chk
 
 
